@@ -10,6 +10,10 @@ package dastard
 // Ring family: the producer is a real AbacoRing over a real shared-memory ring buffer; the harness
 // plays the card, writing each tick's burst (every packet padded to the 8192-byte slot) into the ring
 // before the reader loop's ReadAllPackets call reaches the real AbacoRing.ReadAllPackets.
+// Offsets family: the groups leave start-up sampling at unequal offsets (start-up sampling saw a
+// different number of packets per group, and every group counts from its own sequence-number base), so
+// the first common sequence number lies inside the script and packets that predate it have to be
+// discarded, also when a lagging group's tick holds nothing but such packets.
 
 import (
 	"bytes"
@@ -38,9 +42,37 @@ type v03Layout struct {
 	frames int  // frames per packet
 	wide   bool // int32 payload
 	ring   bool // the packets travel through a shared-memory ring buffer and the real AbacoRing
+	// Start-up sampling, per group (nil: every group saw v03NSampled packets counted from v03Base).
+	// The reader aligns the groups on "sequence number minus the first sequence number seen by start-up
+	// sampling" (global sequence number): packet bases[g]+k of group g is simultaneous with packet
+	// bases[h]+k of group h, and carries the same time stamp.
+	bases []int // sequence number of the first packet of the group that start-up sampling saw
+	nsamp []int // number of packets of the group that start-up sampling saw
 }
 
-const v03Base = 1000 // sequence number of the first sampled packet
+// base and nsampled of the gi-th group
+func (l *v03Layout) base(gi int) int {
+	if l.bases == nil || gi < 0 {
+		return v03Base
+	}
+	return l.bases[gi]
+}
+func (l *v03Layout) nsampled(gi int) int {
+	if l.nsamp == nil {
+		return v03NSampled
+	}
+	return l.nsamp[gi]
+}
+func (l *v03Layout) index(g v03Group) int {
+	for i, h := range l.groups {
+		if h == g {
+			return i
+		}
+	}
+	return -1
+}
+
+const v03Base = 1000 // sequence number of the first sampled packet (layouts without bases of their own)
 const v03NSampled = 3
 
 func v03Value(ch, sn, frame int) int { return (ch*131 + (sn-v03Base)*17 + frame*3 + 7) & 0x3fff }
@@ -78,7 +110,7 @@ func v03PacketRaw(l *v03Layout, g v03Group, sn int) (*packets.Packet, []byte) {
 		panic(err)
 	}
 	// 1e6 frames per second: every group measures the same sample rate
-	p.SetTimestamp(&packets.PacketTimestamp{T: uint64(1000000 + (sn-v03Base)*l.frames*1000), Rate: 1e9})
+	p.SetTimestamp(&packets.PacketTimestamp{T: uint64(1000000 + (sn-l.base(l.index(g)))*l.frames*1000), Rate: 1e9})
 	raw := p.Bytes()
 	q, err := packets.ReadPacket(bytes.NewReader(raw))
 	if err != nil {
@@ -97,6 +129,7 @@ const v03Slot = 8192 // ring slot size = the largest legal packet
 
 // totals of this worker, for the evidence
 var v03RingExecs, v03RingFull, v03RingShort, v03RingWraps int64
+var v03OffsetExecs, v03OffsetPredating, v03OffsetStaleTick int64
 
 // v03Ring is a shared-memory ring buffer with the harness on the writing side (the card) and the
 // real AbacoRing on the reading side.
@@ -250,7 +283,8 @@ const v03NTicks = 5
 // one execution: choose loss pattern and batching (deviation-bounded), run the real reader loop
 func v03Run(x *vexp.X, l *v03Layout, seed int64, staggered bool) (res vexp.Result) {
 	ng := len(l.groups)
-	// script[g][k] = tick in which packet base+NSampled+k of group g arrives, or -1 if lost.
+	// script[g][k] = tick in which packet base(g)+nsampled(g)+k of group g (the k-th one after those
+	// that start-up sampling saw) arrives, or -1 if lost.
 	// Default environment: staggered=false: everything arrives in the first tick; staggered=true: two
 	// packets per tick, odd groups one packet behind (one group lagging another is the normal state).
 	// Deviations: a packet is lost, or the tick advances by a further 1..n before it arrives.
@@ -283,13 +317,16 @@ func v03Run(x *vexp.X, l *v03Layout, seed int64, staggered bool) (res vexp.Resul
 		}
 	}
 	x.Logf("layout %s seed %d script (tick per packet, -1 = lost): %v", l.name, seed, script)
+	if l.nsamp != nil {
+		x.Logf("start-up sampling saw, per group, %v packets counted from sequence numbers %v; script packet k of group g has global sequence number nsamp[g]+k", l.nsamp, l.bases)
+	}
 
 	vhook.SetMapSeed(seed)
 	defer vhook.SetMapSeed(-1)
 	as, _ := NewAbacoSource()
 	prod := &v03Producer{done: make(chan struct{})}
-	for _, g := range l.groups {
-		for sn := v03Base; sn < v03Base+v03NSampled; sn++ {
+	for gi, g := range l.groups {
+		for sn := l.base(gi); sn < l.base(gi)+l.nsampled(gi); sn++ {
 			q, raw := v03PacketRaw(l, g, sn)
 			prod.sampled = append(prod.sampled, q)
 			prod.sampledRaw = append(prod.sampledRaw, raw)
@@ -323,17 +360,48 @@ func v03Run(x *vexp.X, l *v03Layout, seed int64, staggered bool) (res vexp.Resul
 	}
 	prod.batches = make([][]*packets.Packet, v03NTicks)
 	prod.batchesRaw = make([][][]byte, v03NTicks)
-	lastArrived := make([]int, ng) // last sequence number of the group that arrives at all
+	// Global sequence number = sequence number - the group's base: what the groups are aligned on.
+	lastArrived := make([]int, ng) // last global sequence number of the group that arrives at all
+	firstCommon := 0               // first global sequence number that follows start-up sampling in every group
 	for g, grp := range l.groups {
-		lastArrived[g] = v03Base + v03NSampled - 1
+		lastArrived[g] = l.nsampled(g) - 1
+		if l.nsampled(g) > firstCommon {
+			firstCommon = l.nsampled(g)
+		}
 		for k, t := range script[g] {
 			if t >= 0 {
-				sn := v03Base + v03NSampled + k
+				sn := l.base(g) + l.nsampled(g) + k
 				q, raw := v03PacketRaw(l, grp, sn)
 				prod.batches[t] = append(prod.batches[t], q)
 				prod.batchesRaw[t] = append(prod.batchesRaw[t], raw)
-				lastArrived[g] = sn
+				lastArrived[g] = l.nsampled(g) + k
 			}
+		}
+	}
+	// Packets that arrive but predate the first common sequence number (they must be discarded), and:
+	// is there a tick up to which a group delivered nothing but such packets (at least one in that very
+	// tick) while another group already delivered a packet that belongs to the output?
+	predating, staleTick := 0, false
+	for g := range l.groups {
+		for k, t := range script[g] {
+			if t < 0 || l.nsampled(g)+k >= firstCommon {
+				continue
+			}
+			predating++
+			onlyStale, otherHasData := true, false
+			for k2, t2 := range script[g] {
+				if t2 >= 0 && t2 <= t && l.nsampled(g)+k2 >= firstCommon {
+					onlyStale = false
+				}
+			}
+			for h := range l.groups {
+				for k2, t2 := range script[h] {
+					if h != g && t2 >= 0 && t2 <= t && l.nsampled(h)+k2 >= firstCommon {
+						otherHasData = true
+					}
+				}
+			}
+			staleTick = staleTick || (onlyStale && otherHasData)
 		}
 	}
 	for len(prod.batches) > 1 && len(prod.batches[len(prod.batches)-1]) == 0 {
@@ -406,13 +474,18 @@ func v03Run(x *vexp.X, l *v03Layout, seed int64, staggered bool) (res vexp.Resul
 		nextFrame += FrameIndex(n)
 	}
 
-	// expectation: aligned by sequence number; every group contributes packets base+NSampled .. its last
-	// arrived one; the output stops at the group that has the least
+	// expectation: aligned by global sequence number; group g can contribute the packets from the first one
+	// after its start-up sampling (global nsampled(g)) to its last arrived one; the output starts at the
+	// first global sequence number every group can contribute (with equal start-up offsets: right after
+	// sampling) and stops at the group that has the least
 	npk := v03NScript
 	for g := range l.groups {
-		if k := lastArrived[g] - (v03Base + v03NSampled - 1); k < npk {
+		if k := lastArrived[g] - (firstCommon - 1); k < npk {
 			npk = k
 		}
+	}
+	if npk < 0 {
+		npk = 0
 	}
 	wantFrames := npk * l.frames
 	fillers := 0
@@ -430,12 +503,12 @@ func v03Run(x *vexp.X, l *v03Layout, seed int64, staggered bool) (res vexp.Resul
 		for c := 0; c < grp.nchan; c++ {
 			got := out[chIdx]
 			if len(got) != wantFrames {
-				return vexp.Result{Violation: fmt.Sprintf("channel %d (group first=%d): %d samples delivered, expected %d = %d packets x %d frames (sequence numbers %d..%d; groups' last arrived %v); script %v",
-					grp.first+c, grp.first, len(got), wantFrames, npk, l.frames, v03Base+v03NSampled, v03Base+v03NSampled+npk-1, lastArrived, script), Class: "sample-count-wrong"}
+				return vexp.Result{Violation: fmt.Sprintf("channel %d (group first=%d): %d samples delivered, expected %d = %d packets x %d frames (global sequence numbers %d..%d = this group's %d..%d; groups' last arrived global sequence numbers %v, packets seen by start-up sampling %v); script %v",
+					grp.first+c, grp.first, len(got), wantFrames, npk, l.frames, firstCommon, firstCommon+npk-1, l.base(gi)+firstCommon, l.base(gi)+firstCommon+npk-1, lastArrived, l.nsamp, script), Class: "sample-count-wrong"}
 			}
 			for k := 0; k < npk; k++ {
-				sn := v03Base + v03NSampled + k
-				if script[gi][k] < 0 {
+				sn := l.base(gi) + firstCommon + k
+				if script[gi][firstCommon+k-l.nsampled(gi)] < 0 {
 					if c == 0 {
 						fillers += l.frames
 					}
@@ -444,8 +517,8 @@ func v03Run(x *vexp.X, l *v03Layout, seed int64, staggered bool) (res vexp.Resul
 				for f := 0; f < l.frames; f++ {
 					want := RawType(v03Value(grp.first+c, sn, f))
 					if got[k*l.frames+f] != want {
-						return vexp.Result{Violation: fmt.Sprintf("channel %d: sample %d (packet %d frame %d) is %d, the packet carried %d; script %v",
-							grp.first+c, k*l.frames+f, sn, f, got[k*l.frames+f], want, script), Class: "sample-content-wrong"}
+						return vexp.Result{Violation: fmt.Sprintf("channel %d: sample %d (packet %d = global %d, frame %d) is %d, the packet carried %d; packets seen by start-up sampling %v; script %v",
+							grp.first+c, k*l.frames+f, sn, firstCommon+k, f, got[k*l.frames+f], want, l.nsamp, script), Class: "sample-content-wrong"}
 					}
 				}
 			}
@@ -458,13 +531,24 @@ func v03Run(x *vexp.X, l *v03Layout, seed int64, staggered bool) (res vexp.Resul
 	allGaps := 0
 	for g := range l.groups {
 		for k := 0; k < v03NScript; k++ {
-			if script[g][k] < 0 && v03Base+v03NSampled+k < lastArrived[g] {
+			if script[g][k] < 0 && l.nsampled(g)+k < lastArrived[g] {
 				allGaps += l.frames
 			}
 		}
 	}
 	if dropped < fillers || dropped > allGaps {
 		return vexp.Result{Violation: fmt.Sprintf("blocks report %d dropped frames in total; %d filler frames are in the delivered data and %d gaps were filled in all (summed over groups); script %v", dropped, fillers, allGaps, script), Class: "dropped-frame-count-wrong"}
+	}
+	if l.nsamp != nil { // offsets family
+		v03OffsetExecs++
+		if predating > 0 {
+			v03OffsetPredating++
+		}
+		if staleTick {
+			v03OffsetStaleTick++
+		}
+		return vexp.Result{Nontrivial: predating > 0 && wantFrames > 0,
+			Outcome: fmt.Sprintf("%d frames %d blocks %d fillers %d arrived packets before the first common sequence number, lagging group with only such packets: %v", wantFrames, nblocks, fillers, predating, staleTick)}
 	}
 	return vexp.Result{Nontrivial: fillers > 0 && ndev > 1, Outcome: fmt.Sprintf("%d frames %d blocks %d fillers", wantFrames, nblocks, fillers)}
 }
@@ -474,13 +558,18 @@ func TestVerifC03(t *testing.T) {
 	r.CrashTrace = true // the reader loop runs in its own goroutine
 	defer r.Finish()
 	maxDev := 2
+	offDev := []int{2, 2, 1} // offsets family: deviation bound per layout
 	if r.Thorough() {
 		maxDev = 3
+		offDev = []int{2, 2, 2}
 	}
 	r.SetBound(fmt.Sprintf("group layouts (1-3 groups, 1-2 channels per group, 1|3 frames per packet, int16|int32 payloads), 6 sequence numbers per group after sampling, every loss pattern and every batching into 5 read ticks with at most %d deviations (a lost packet or a later tick) from each of two default arrival patterns ('everything in the first tick' and 'two packets per tick, odd groups one packet behind'), map-iteration seeds 0..2; ring family: the same scripts with the packets written by the harness into a real shared-memory ring buffer (slots of 8192 bytes, "+
 		"every packet padded to the slot, the ring wraps during the execution) and read by the real AbacoRing (start, discardStale, ReadAllPackets, stop) as the source's producer, for the layouts "+
 		"12 channels x 339 frames int16 (packets of exactly 8192 bytes), 6 channels x 339 frames int32 (8192 bytes), 2 channels x 3 frames (68-byte packets), and groups of 12 and 1 channels x 339 frames "+
-		"(8192- and 734-byte packets interleaved in one ring); bursts of 0..6 packets per group and tick, map-iteration seed 0 (thorough: 0..2); every ReadAllPackets result also compared with the burst written", maxDev))
+		"(8192- and 734-byte packets interleaved in one ring); bursts of 0..6 packets per group and tick, map-iteration seed 0 (thorough: 0..2); every ReadAllPackets result also compared with the burst written; "+
+		"offsets family: groups that leave start-up sampling at unequal offsets: every vector, not all equal, of 2|3|4 packets seen by start-up sampling per group, each group counting from a sequence-number base of its own "+
+		"(the groups are aligned on sequence number minus the first one seen by sampling), for a 2-group layout (3 frames, int16) with at most %d deviations, a 2-group layout listed against channel order (1 frame, int32) with at most %d and a 3-group layout with at most %d, "+
+		"the same two default arrival patterns (with unequal offsets the second one makes a lagging group's first tick hold only packets that predate the other group's first packet), map-iteration seed 0 (thorough: 0..2 for the 2-group layouts)", maxDev, offDev[0], offDev[1], offDev[2]))
 	r.Note("ring family: AbacoRing.samplePackets (a wall-clock polling loop around ReadAllPackets that wants 100 packets) is replaced by one ReadAllPackets call after the harness wrote the sampled packets")
 	var layouts []v03Layout
 	for _, frames := range []int{1, 3} {
@@ -522,6 +611,64 @@ func TestVerifC03(t *testing.T) {
 		l.name += fmt.Sprintf("/bytes=%v", lens)
 		layouts = append(layouts, l)
 	}
+	// offsets family (runs first: it is small)
+	var offLayouts []v03Layout
+	var offLayoutDev []int
+	for oi, ol := range []struct {
+		gs     []v03Group
+		bases  []int
+		frames int
+		wide   bool
+	}{
+		{[]v03Group{{0, 1}, {1, 2}}, []int{1000, 70001}, 3, false},
+		{[]v03Group{{4, 1}, {0, 2}}, []int{52007, 1300}, 1, true},
+		{[]v03Group{{0, 1}, {1, 2}, {3, 1}}, []int{4000, 1000, 90011}, 1, false},
+	} {
+		ng := len(ol.gs)
+		ns := make([]int, ng)
+		for i := range ns {
+			ns[i] = 2
+		}
+		for {
+			equal := true
+			for _, n := range ns {
+				equal = equal && n == ns[0]
+			}
+			if !equal {
+				offLayouts = append(offLayouts, v03Layout{name: fmt.Sprintf("offsets/groups=%v/frames=%d/int32=%v/bases=%v/sampled=%v", ol.gs, ol.frames, ol.wide, ol.bases, ns),
+					groups: ol.gs, frames: ol.frames, wide: ol.wide, bases: ol.bases, nsamp: append([]int(nil), ns...)})
+				offLayoutDev = append(offLayoutDev, offDev[oi])
+			}
+			i := ng - 1
+			for ; i >= 0 && ns[i] == 4; i-- {
+				ns[i] = 2
+			}
+			if i < 0 {
+				break
+			}
+			ns[i]++
+		}
+	}
+	for i := range offLayouts {
+		l := &offLayouts[i]
+		dev := offLayoutDev[i]
+		nseeds := 1
+		if r.Thorough() && len(l.groups) == 2 {
+			nseeds = 3
+		}
+		for seed := 0; seed < nseeds; seed++ {
+			seed := int64(seed)
+			for _, st := range []bool{false, true} {
+				st := st
+				// whole cases are dealt out to the workers: the cases are many and small
+				r.DFS(fmt.Sprintf("%s/seed%d/staggered=%v", l.name, seed, st), dev, func(x *vexp.X) vexp.Result { return v03Run(x, l, seed, st) })
+			}
+		}
+	}
+	r.Count("offsets_executions", v03OffsetExecs)
+	r.Count("offsets_executions_in_which_arrived_packets_predate_the_first_common_sequence_number", v03OffsetPredating)
+	r.Count("offsets_executions_in_which_a_lagging_group_had_delivered_only_predating_packets_when_another_group_had_data", v03OffsetStaleTick)
+
 	for i := range layouts {
 		l := &layouts[i]
 		nseeds := 1
